@@ -262,18 +262,48 @@ Definition call_print (c : call) : call_out :=
   | CExpmSparse co => OExpmSparse (gqout co)
   end.
 
-(* what the harness compares: None = time_evolve raises; Some (shape of the result, for every entry
-   of the result the call it comes from) *)
+(* run-length encoding of the per-entry calls (keeps the printed observation small) *)
+Fixpoint list_eqb {A} (eqb : A -> A -> bool) (l1 l2 : list A) : bool :=
+  match l1, l2 with
+  | [], [] => true
+  | a :: t1, b :: t2 => eqb a b && list_eqb eqb t1 t2
+  | _, _ => false
+  end.
+
+Definition call_out_eqb (a b : call_out) : bool :=
+  match a, b with
+  | OInput, OInput => true
+  | OSolveIvp m1 c1 s1 e1, OSolveIvp m2 c2 s2 e2 =>
+      String.eqb m1 m2 && list_eqb Z.eqb c1 c2 && list_eqb Z.eqb s1 s2 && list_eqb (list_eqb Z.eqb) e1 e2
+  | OExpm c1, OExpm c2 => list_eqb Z.eqb c1 c2
+  | OEigsh k1 c1, OEigsh k2 c2 => Nat.eqb k1 k2 && list_eqb Z.eqb c1 c2
+  | OExpmMultiply c1, OExpmMultiply c2 => list_eqb Z.eqb c1 c2
+  | OExpmSparse c1, OExpmSparse c2 => list_eqb Z.eqb c1 c2
+  | _, _ => false
+  end.
+
+Fixpoint rle (l : list call_out) : list (call_out * nat) :=
+  match l with
+  | [] => []
+  | h :: t =>
+      match rle t with
+      | (h', c) :: r => if call_out_eqb h h' then (h', S c) :: r else (h, 1) :: (h', c) :: r
+      | [] => [(h, 1)]
+      end
+  end.
+
+(* what the harness compares: None = time_evolve raises; Some (shape of the result, the calls the
+   entries of the result come from, run-length encoded) *)
 Definition observe (m : mode) (forward : bool) (n : nat) (s : list nat) (t : Q) (ncols : nat)
-  : option (list nat * list call_out) :=
+  : option (list nat * list (call_out * nat)) :=
   match s_time_evolve ncols s n t forward m with
-  | Some r => Some (shape r, map call_print (data r))
+  | Some r => Some (shape r, rle (map call_print (data r)))
   | None => None
   end.
 
-Definition observe_fea (md : string) (n : nat) (c : gq) : option (list call_out) :=
+Definition observe_fea (md : string) (n : nat) (c : gq) : option (list (call_out * nat)) :=
   match s_fast_exp_action n c md with
-  | Some v => Some (map call_print v)
+  | Some v => Some (rle (map call_print v))
   | None => None
   end.
 
